@@ -130,7 +130,7 @@ def run(c, case):
     out = {"err": err,
            "link": None if after["target"] is None else "old" if after["target"] == before["target"] else "new",
            "target_frame": after["target_frame"],
-           "stamped": None if setter in DIM_FUNCS else after["stamp"] != before["stamp"]}
+           "stamped": None if setter in DIM_FUNCS else after["stamp"] != before["stamp"], "changed": after != before}
     return out, dirty or after != before or err is None
 
 
